@@ -10,11 +10,49 @@ def showRes : Except String Unit → String
   | .ok _ => "ok"
   | .error t => "err:" ++ t
 
-/-- `grid b=<Builder> field=value …`: the generated `check` on the decoded parameter point, through the
-trait-level code (`check_ref`, `check`, blanket `fit`/`fit_with`/`transform` over an abstract inner fit that
-always trains), next to the documented range and finiteness of the point. -/
-def handleGrid (toks : List String) : Option String := do
-  let b ← arg toks "b"
+/-- the constants `SvmParams::new()` and the regression setters insert, as f64 bit patterns
+(`F::one()`, `F::cast(0.1)`, `F::cast(1e-7)`): the setter model runs on the request's hex tokens -/
+def svmConsts : SvmConsts String := { one := "3ff0000000000000", tenth := "3fb999999999999a", eps0 := "3e7ad7f29abcaf48" }
+
+def optTok (s : String) : Option (Option String) :=
+  if s = "none" then some none else if s.length = 16 then some (some s) else none
+def hexTok (s : String) : Option String := if s.length = 16 && (parseHex s).isSome then some s else none
+
+/-- one setter call `name:arg[,arg]` -/
+def parseSvmSet (s : String) : Option (SvmSet String) :=
+  match s.splitOn ":" with
+  | [name, args] =>
+    match name, args.splitOn "," with
+    | "eps", [x] => (hexTok x).map .eps
+    | "pn", [a, b] => do pure (.posNeg (← hexTok a) (← hexTok b))
+    | "nuw", [v] => (hexTok v).map .nuWeight
+    | "ceps", [c, e] => do pure (.cEps (← hexTok c) (← hexTok e))
+    | "nueps", [n, e] => do pure (.nuEps (← hexTok n) (← hexTok e))
+    | "csvr", [c, l] => do pure (.cSvr (← hexTok c) (← optTok l))
+    | "nusvr", [n, c] => do pure (.nuSvr (← hexTok n) (← optTok c))
+    | _, _ => none
+  | _ => none
+
+def showPairTok : Option (String × String) → String
+  | none => "none"
+  | some (a, b) => a ++ "," ++ b
+
+/-- `b=Svm via=setters ops=s1;s2;…`: the call chain is run through the setter model; the resulting fields are
+handed to the generated guard as if they had been in the request -/
+def svmSetterToks (toks : List String) : Option (List String × String) := do
+  let ops ← (arg toks "ops").bind fun s => (splitOn' (if s = "-" then "" else s) ";").mapM parseSvmSet
+  let st := svmRun svmConsts ops
+  let extra := [s!"solver_params_eps={st.eps}", s!"c={showPairTok st.c}", s!"nu={showPairTok st.nu}"]
+  some (toks ++ extra, s!" eps={st.eps} c={showPairTok st.c} nu={showPairTok st.nu}")
+
+/-- `grid b=<Builder> [via=<form>] field=value …`: the generated `check` on the decoded parameter point, through the
+trait-level code (`check_ref`, `check`, and the entry point named by `via`: blanket `fit`/`fit_with`/`transform`,
+or one of the hand-written forms, over an abstract inner fit that always trains), next to the documented range and
+finiteness of the point. -/
+def handleGrid (toks0 : List String) : Option String := do
+  let b ← arg toks0 "b"
+  let via := (arg toks0 "via").getD "blanket"
+  let (toks, tail) ← if b = "Svm" && via = "setters" then svmSetterToks toks0 else some (toks0, "")
   let chk ← Gen.C04.checkByName b toks
   let (inr, fin) ← Ranges.rangeByName b toks
   -- trait level: the parameter point is a token (`()`): the decision depends on the guard only
@@ -24,12 +62,25 @@ def handleGrid (toks : List String) : Option String := do
   let f : Except String String := fitUnchecked guard id (fun _ (_ : Unit) => .ok "as-checked") () ()
   let fw : Except String String := fitWithUnchecked guard id (fun _ (_ : Unit) (_ : Unit) => .ok "as-checked") () () ()
   let tr : Except String String := transformUnchecked guard (fun _ (_ : Unit) => "as-checked") () ()
+  let tt : Except String String := tryTransformUnchecked guard id (fun _ (_ : Unit) => .ok "as-checked") () ()
+  let at_ : Except String String := andThenUnchecked guard (fun _ (_ : Unit) => .ok "as-checked") () ()
+  let wr : Except String String := wrapUnchecked guard (fun _ (_ : Unit) => (.ok () : Except String Unit)) (fun _ => "as-checked") () ()
   let sh : Except String String → String := fun x => match x with | .ok s => s | .error t => "err:" ++ t
-  -- the three blanket impls take the same decision; the harness reports the one the builder has
-  if (sh f != sh fw) || (sh f != sh tr) then none else
+  -- the entry point the request went through (the family is the part of `via` before the first `:`)
+  let fam := (via.splitOn ":").headD ""
+  let res ← match fam with
+    | "blanket" => if (sh f != sh fw) || (sh f != sh tr) then none else some f
+    | "setters" => some f
+    | "fit" => some f
+    | "fit_with" => some fw
+    | "transform" => some tr
+    | "try" => some tt
+    | "and_then" => some at_
+    | "wrap" => some wr
+    | _ => none
   -- accepted non-finite points are outside the property: the harness does not train with them
-  let fitS := if (match chk with | .ok _ => true | _ => false) && !fin then "skipped" else sh f
-  some s!"ref={showRes (r.map fun _ => ())} val={showRes (v.map fun _ => ())} fit={fitS} inrange={if inr then 1 else 0} finite={if fin then 1 else 0}"
+  let fitS := if (match chk with | .ok _ => true | _ => false) && !fin then "skipped" else sh res
+  some s!"ref={showRes (r.map fun _ => ())} val={showRes (v.map fun _ => ())} fit={fitS} inrange={if inr then 1 else 0} finite={if fin then 1 else 0}{tail}"
 
 def handle (toks : List String) : String :=
   let r := match toks with
